@@ -21,7 +21,7 @@ ID = "C15"
 LEVEL = "exploration"
 RULE = ("random pairs of sub-query conditions (depth<=2) over one P and one Q variable; connectives & and | (also mixed "
         "with a plain condition); sub-query kinds an(entity(x0,c)), an(entity(x1,c)), an(set_of([x0,x1],c)); positions "
-        "condition / comparison operand (an and the) / predicate-form argument; caching on and off. Non-trivial: the "
+        "condition / comparison operand (an and the, also correlated with the enclosing query's variable, also over objects with value equality) / predicate-form argument; caching on and off. Non-trivial: the "
         "oracle result is neither empty nor the whole product. distinct by structural hash.")
 LEVEL_TEXT = ("Reference-model monitoring with a metamorphic twin: the composed query, the query with the sub-query's "
               "conditions written in place, and the plain-Python oracle must agree on the result set (compared by identity).")
@@ -37,14 +37,23 @@ def plan(tier, seed):
 
 def floors(tier):
     return {"distinct_nontrivial": 200, "cls:pos:cond": 500, "cls:pos:operand_an": 100, "cls:pos:operand_the": 30,
-            "cls:pos:argument": 100, "cls:conn:&": 150, "cls:conn:|": 150, "cls:sub:set": 100, "cls:sub:ent0": 100,
+            "cls:pos:argument": 100, "cls:pos:correlated_the": 100, "cls:pos:correlated_an": 100, "cls:pos:operand_value_eq": 100, "cls:conn:&": 150, "cls:conn:|": 150, "cls:sub:set": 100, "cls:sub:ent0": 100,
             "cls:sub:ent1": 100, "cls:with_plain": 100, "re:An@.*\\.enter": 1000}
 
 
 def gen_case(rng):
     world = D.random_world(rng, np_=(2, 4), nq=(2, 4))
-    pos = rng.choice(["cond", "cond", "cond", "operand_an", "operand_the", "argument"])
+    pos = rng.choice(["cond", "cond", "cond", "operand_an", "operand_the", "argument", "correlated_the", "correlated_an",
+                      "operand_value_eq"])
     case = {"world": world, "pos": pos, "caching": rng.random() < 0.7}
+    if pos in ("correlated_the", "correlated_an"):
+        case["attr"] = rng.choice(["a", "b"])
+        case["op"] = rng.choice(["==", "!=", "<="])
+        return case
+    if pos == "operand_value_eq":
+        D.add_equal_valued_objects(rng, world, n=(3, 6))
+        case["c1"] = C.gen_cond(rng, ["E"], rng.randint(0, 1), {"preds": False, "objcmp": False})
+        return case
     if pos == "cond":
         kinds = ["P", "Q"]
         case.update({
@@ -79,8 +88,22 @@ def expected(case, world):
     if case["pos"] == "cond":
         fc = flat_cond(case)
         return [(m[id(p)], m[id(q)]) for p, q in itertools.product(ps, qs) if C.holds(fc, (p, q))]
+    if case["pos"] in ("correlated_the", "correlated_an"):
+        # x.attr OP the(entity(y.attr, y == x.p)): the sub-query refers to the enclosing query's variable
+        return [(m[id(q)],) for q in qs if C.OPS[case["op"]](getattr(q, case["attr"]), getattr(q.p, case["attr"]))]
+    if case["pos"] == "operand_value_eq":
+        es = world["E"]
+        sols = [e for e in es if C.holds(case["c1"], (e,))]
+        # the compared operand ranges over COPIES of the objects (equal, not identical): ==, i.e. VALUE equality
+        return [(f"copy{i}",) for i, e in enumerate(_copies(world)) if any(e == s_ for s_ in sols)]
     sols = [p for p in ps if C.holds(case["c1"], (p,))]
     return [(m[id(q)],) for q in qs if any(q.p is p for p in sols)]
+
+
+def _copies(world):
+    if "_copies" not in world:
+        world["_copies"] = [D.PE(a=e.a, b=e.b, s=e.s, t=e.t, d=dict(e.d), flag=e.flag, ix=-1) for e in world["E"]]
+    return world["_copies"]
 
 
 def n_sub_solutions(case, world):
@@ -114,6 +137,28 @@ def run(case, world, caching, times=1, flattened=False):
                         comp = (comp & pl) if case["plain_conn"] == "&" else (comp | pl)
                 q = an(set_of(xs, comp))
                 sel = xs
+            elif case["pos"] in ("correlated_the", "correlated_an"):
+                y = let(D.P, ps)
+                x = let(D.Q, qs)
+                op = C.OPS[case["op"]]
+                if flattened:
+                    q = an(set_of([x], y == x.p, op(getattr(x, case["attr"]), getattr(y, case["attr"]))))
+                else:
+                    quant = the if case["pos"] == "correlated_the" else an
+                    q = an(set_of([x], op(getattr(x, case["attr"]), quant(entity(getattr(y, case["attr"]), y == x.p)))))
+                sel = [x]
+            elif case["pos"] == "operand_value_eq":
+                es = world["E"]
+                copies = _copies(world)
+                for i, c_ in enumerate(copies):
+                    m[id(c_)] = f"copy{i}"
+                x = let(D.PE, copies)
+                y = let(D.PE, es)
+                if flattened:
+                    q = an(set_of([x], x == y, C.build(case["c1"], [y], 0, False)))
+                else:
+                    q = an(set_of([x], x == an(entity(y, C.build(case["c1"], [y], 0, False)))))
+                sel = [x]
             else:
                 y = let(D.P, ps)
                 x = let(D.Q, qs)
@@ -160,6 +205,8 @@ def check_case(case, ctx):
         if case.get("plain") is not None:
             ctx.cls("cls:with_plain")
         total = len(world["P"]) * len(world["Q"])
+    elif case["pos"] == "operand_value_eq":
+        total = len(world["E"])
     else:
         total = len(world["Q"])
     if 0 < len(set(exp)) < total:
